@@ -120,10 +120,21 @@ def r2_sum(ctx):
 
 def r3_vector(ctx):
     qn = VF
-    cfi = ("call", ("glob", "verde.base.utils.check_fit_input"), (("param", "coordinates"), ("param", "data"), ("param", "weights")), (), 0)
+    cfi = None
     for p in ctx.paths(qn):
         if p.exit != "return":
             continue
+        cands = [e.data[0] for e in p.events if e.kind == "call" and callee(e.data[0]) == "verde.base.utils.check_fit_input"]
+        if not cands:
+            ctx.add("R3", qn + "|validated-input", "VIOLATED", "Vector.fit does not validate its input with check_fit_input", fn=qn)
+            continue
+        cfi = cands[0]
+        okv = cfi[2][:3] == (("param", "coordinates"), ("param", "data"), ("param", "weights"))
+        up = Q.arg(ctx, cfi, "unpack")
+        # zip(self.components, data, weights) needs tuples for ANY number of components: with unpack=True a single component is unpacked
+        ctx.check("R3", qn + "|tuples-for-any-component-count", True if okv and up == const(False) else (False if up in (None, const(True)) else None),
+                  "check_fit_input(..., unpack=False): data and weights stay tuples, so the zip pairs component i with data[i], weights[i] for 1..n components",
+                  bad="check_fit_input unpacks one-element tuples (unpack=True): a single-component Vector zips its component with the elements of the data array / with None", fn=qn)
         fits = [e.data[0] for e in p.events if e.kind == "call" and callee(e.data[0]) == ".fit"]
         loops = [e for e in p.events if e.kind == "loop-enter"]
         if len(fits) != 1 or len(loops) != 1:
